@@ -2,6 +2,7 @@ package main
 
 import (
 	"fmt"
+	"strings"
 	"go/constant"
 	"go/token"
 	"go/types"
@@ -18,6 +19,7 @@ func init() {
 			"C19.records — every csv Read call site in the create command is classified: the first record is the header and flows only into the header normalisation; every other read sits in the record loop, and on its non-error path the record is turned into a row (values[header[i]] = record[i] for the same range index i over the record, header being the normalised header) that reaches exactly one AddRow before the next read, on every path; no record is read and dropped; " +
 			"C19.normalize — the header normalisation lower-cases and then maps every rune through a function that returns either its argument, only under a test r >= 'a' && r <= 'z', or the constant '_'; " +
 			"C19.errexit — errors of reading (except io.EOF, which ends the input), AddRow, Flush, both bbolt.Open calls and the big writer's constructor reach the command's error result; the cobra RunE closure returns it and main exits with a non-zero constant when Execute fails; " +
+			"C19.txrelease — a writer that keeps a bbolt write transaction open between calls has a method that rolls it back, and the command runs it (deferred) on every path after constructing the writer, so a failure cannot leave DB.Close waiting on a pending transaction (the command would hang instead of exiting non-zero); " +
 			"C19.flush — the successful return is preceded by Flush on every path; C19.excl — the big-mode output is opened with O_EXCL and the scratch database without O_CREATE (as C16). " +
 			"NOT decided: observational identity of normal and --big output (C05's value-level clause); CSV parsing itself (encoding/csv, trusted); distinctness of headers after normalisation (excluded by the property).",
 		assumptions: []string{"encoding/csv default behaviour", "cobra runs RunE and returns its error from Execute", "go/ssa, dominance"},
@@ -32,6 +34,8 @@ func runC19(c *Ctx) {
 	c19Records(c)
 	c19Normalize(c)
 	c19ErrExit(c)
+	txReleaseRule(c, "C19.txrelease")
+	c19NoTouch(c)
 	// excl: the create command's bbolt.Open sites
 	decide, why := hookDecider(c)
 	n := 0
@@ -179,11 +183,6 @@ func c19Records(c *Ctx) {
 			c.r.bad(rule, key, "a record is read and discarded (or its error ignored): that record never becomes a row", []string{c.w.ipos(r)})
 			continue
 		}
-		// (1) must be in a loop
-		if !c.fc.reachableFrom(fn, r, r) {
-			c.r.bad(rule, key, "a record is read outside the record loop: it is consumed without becoming a row (records shift by one)", []string{c.w.ipos(r)})
-			continue
-		}
 		// (2) the row map passed to AddRow is filled from this record and the normalised header with the same index
 		var rowOK bool
 		var why = "no AddRow call takes a map filled from this record"
@@ -223,7 +222,7 @@ func c19Records(c *Ctx) {
 				switch {
 				case ki.X != header:
 					good, why = false, "the column name is not taken from the normalised header"
-				case vi.X != ssa.Value(rec):
+				case !phiIncludes(vi.X, rec):
 					good, why = false, "the value is not taken from the record just read"
 				case ki.Index != vi.Index:
 					good, why = false, "header and record are indexed differently: values land in the wrong columns"
@@ -236,7 +235,7 @@ func c19Records(c *Ctx) {
 					}
 					upper := false
 					for _, cm := range cmpsAt(mu) {
-						if cm.Y != nil && cm.Op == token.LSS && cm.X == vi.Index && isLenOf(cm.Y, rec) {
+						if cm.Y != nil && cm.Op == token.LSS && cm.X == vi.Index && (isLenOf(cm.Y, rec) || isLenOf(cm.Y, vi.X)) {
 							upper = true
 						}
 					}
@@ -262,7 +261,7 @@ func c19Records(c *Ctx) {
 				return false
 			}
 			for _, cm := range trueCmps(fact{iff.Cond, pred.Succs[0] == succ}) {
-				if cm.Op == token.NEQ && cm.Y != nil && cm.X == ssa.Value(errv) && isNilConst(cm.Y) {
+				if cm.Op == token.NEQ && cm.Y != nil && phiIncludes(cm.X, errv) && isNilConst(cm.Y) {
 					return true
 				}
 			}
@@ -549,3 +548,163 @@ func isGlobalNamed(v ssa.Value, pkg, name string) bool {
 }
 
 var _ = types.Typ
+
+// txReleaseRule: a writer that keeps a bbolt write transaction open between calls (a *bbolt.Tx field assigned from
+// DB.Begin(true)) must offer a method that rolls that transaction back, and the create command must run it (normally by
+// defer) on every path after the writer was constructed: bbolt's DB.Close waits for pending transactions, so abandoning
+// the writer on an error path makes the command hang instead of failing.
+func txReleaseRule(c *Ctx, rule string) {
+	type held struct {
+		fld   *types.Var
+		owner *types.Named
+	}
+	var helds []held
+	seen := map[*types.Var]bool{}
+	for _, fn := range c.w.ModFuncs {
+		if c.w.pkgPathOf(fn) != pkgRoot {
+			continue
+		}
+		allInstrs(fn, func(i ssa.Instruction) {
+			st, ok := i.(*ssa.Store)
+			if !ok {
+				return
+			}
+			fa, ok := st.Addr.(*ssa.FieldAddr)
+			if !ok {
+				return
+			}
+			f := fieldOf(fa.X.Type(), fa.Field)
+			if f == nil || !typeIs(f.Type(), pkgBolt, "Tx") || seen[f] {
+				return
+			}
+			if e, ok := st.Val.(*ssa.Extract); ok {
+				if bc, ok := e.Tuple.(*ssa.Call); ok && calleeName(&bc.Call) == "(*go.etcd.io/bbolt.DB).Begin" {
+					if w, isK := constBool(bc.Call.Args[1]); !isK || w {
+						seen[f] = true
+						helds = append(helds, held{f, c.w.ownerOf(f)})
+					}
+				}
+			}
+		})
+	}
+	if len(helds) == 0 {
+		c.r.ok(rule, "module", "no type keeps a write transaction open between calls")
+		return
+	}
+	for _, h := range helds {
+		if h.owner == nil {
+			continue
+		}
+		// release methods: methods of the owner that roll the held transaction back
+		var release []*ssa.Function
+		for _, fn := range c.w.ModFuncs {
+			if fn.Signature.Recv() == nil || namedOf(fn.Signature.Recv().Type()) != h.owner {
+				continue
+			}
+			allInstrs(fn, func(i ssa.Instruction) {
+				if call, ok := i.(*ssa.Call); ok && calleeName(&call.Call) == "(*go.etcd.io/bbolt.Tx).Rollback" && path(call.Call.Args[0]).lastField() == h.fld {
+					release = append(release, fn)
+				}
+			})
+		}
+		key := h.owner.Obj().Name() + "." + h.fld.Name()
+		if len(release) == 0 {
+			c.r.bad(rule, key, "the type keeps a write transaction open between calls but has no method that rolls it back: a caller that gives up before Flush cannot close the database any more (DB.Close blocks on the pending transaction)", []string{c.w.pos(h.fld.Pos())})
+			continue
+		}
+		isRelease := func(i ssa.Instruction) bool {
+			cc := callCommon(i)
+			if cc == nil {
+				return false
+			}
+			if _, isGo := i.(*ssa.Go); isGo {
+				return false
+			}
+			f := calleeFunc(cc)
+			for _, r := range release {
+				if f == r {
+					return true
+				}
+			}
+			return false
+		}
+		// constructors: module functions returning *owner
+		n := 0
+		for _, fn := range c.w.ModFuncs {
+			if c.w.pkgPathOf(fn) != pkgCmd {
+				continue
+			}
+			allInstrs(fn, func(i ssa.Instruction) {
+				call, ok := i.(*ssa.Call)
+				if !ok {
+					return
+				}
+				ctor := calleeFunc(&call.Call)
+				if ctor == nil || !c.w.inModule(ctor) || ctor.Signature.Results().Len() == 0 || namedOf(ctor.Signature.Results().At(0).Type()) != h.owner {
+					return
+				}
+				if _, isPtr := ctor.Signature.Results().At(0).Type().(*types.Pointer); !isPtr {
+					return
+				}
+				n++
+				ckey := fmt.Sprintf("%s: %s#%d", safeFname(fn), safeFname(ctor), n)
+				errv := resultValue(call, ctor.Signature.Results().Len()-1)
+				ctorFailed := func(pred, succ *ssa.BasicBlock) bool {
+					iff, ok := pred.Instrs[len(pred.Instrs)-1].(*ssa.If)
+					if !ok || errv == nil {
+						return false
+					}
+					for _, cm := range trueCmps(fact{iff.Cond, pred.Succs[0] == succ}) {
+						if cm.Op == token.NEQ && cm.Y != nil && cm.X == errv && isNilConst(cm.Y) {
+							return true
+						}
+					}
+					return false
+				}
+				if p := c.fc.pathFrom(fn, call, func(x ssa.Instruction) bool { _, r := x.(*ssa.Return); return r }, isRelease, ctorFailed); p != nil {
+					c.r.bad(rule, ckey, "after the writer was created the command can return without releasing the writer's pending transaction: the deferred Close of the temporary database then waits forever and the command hangs instead of exiting with an error (e.g. on a malformed CSV record in --big mode)",
+						[]string{c.w.ipos(p[len(p)-1])}, c.fc.witnessStrings(p)...)
+				} else {
+					c.r.ok(rule, ckey, "the writer's pending transaction is released (deferred) on every path", c.w.ipos(call))
+				}
+			})
+		}
+	}
+}
+
+// c19NoTouch: every file-mutating os call reachable from the create command targets the temporary file it made itself
+// (the name of os.CreateTemp's file), never a path taken from the configuration: the output path may name an existing file.
+func c19NoTouch(c *Ctx) {
+	const rule = "C19.notouch"
+	re := c.w.reach(c.a.CreateCmd)
+	n := 0
+	for _, fn := range re.sorted() {
+		if c.w.pkgPathOf(fn) != pkgCmd {
+			continue
+		}
+		allInstrs(fn, func(i ssa.Instruction) {
+			cc := callCommon(i)
+			if cc == nil {
+				return
+			}
+			name := calleeName(cc)
+			if !fileMutators[name] && name != "os.OpenFile" {
+				return
+			}
+			if name == "os.CreateTemp" || name == "os.MkdirTemp" {
+				return
+			}
+			if strings.HasPrefix(name, "(*os.File)") {
+				return
+			}
+			n++
+			key := fmt.Sprintf("%s: %s#%d", safeFname(fn), shortName(name), n)
+			arg := cc.Args[0]
+			c.r.check(fromCreateTemp(arg) || fromCreateTemp(peel(arg)), rule, key, "targets the command's own temporary file",
+				"a file-mutating call in the create command targets a path that is not the temporary file the command created itself: if it is the output path, a pre-existing output file is deleted or modified although the command must leave it untouched", c.w.ipos(i))
+		})
+	}
+	if n == 0 {
+		c.r.ok(rule, "createCmd", "no file-mutating os call besides creating the temporary file")
+	}
+}
